@@ -22,6 +22,17 @@ CLAIMED = {
              text="Theorem C04_format_then_parse (Props/C04.v): for every tree in normal form over the formatter's infix vocabulary, of any depth, whose edges pass the decidable check edges_ok', and every context precedence, parsing the formatter's tokens returns exactly the tree. The set of (parent, slot, child) triples violating the edge condition is recomputed from the tables on every run and must be covered by the listed findings; "
                   "a new triple is concretised (depth-2 tree and all one-level contexts in 5 clause positions) and replayed. Model formatter tokens and model parser are compared with the implementation on every run (exhaustive depth 2, random to depth 5)",
              design="6/C04", note="Trusted: Coq kernel + vm_compute; behaviour probing of Formatter methods with a recording dispatch (assumes a renderer's parenthesisation depends only on the context precedence); atoms abstract; SQLite value comparison for C04 is not built (structural round trip only)"),
+ "C03": dict(technique="Coq proof parse_format_parse (composition of the reader/reducer theorem and the formatter theorem on the parser's own output) for the expression core; statement level by round-trip oracle with hazard-feature classification and a corpus baseline",
+             text="Theorem C03_parse_format_parse (Props/C03.v): for every written expression obeying the library's edge rule whose parse tree is in the formatter's normal form and passes edges_ok', format's tokens parse back to exactly that tree in every context (fixed point). "
+                  "Statement level (queries, set operations, CTEs, windows, INSERT, DELETE) is decided by the round-trip oracle: a generated or baseline corpus statement whose tree carries none of the listed hazard features must round-trip, format must not raise, and formatting the re-parsed tree must give the same text",
+             design="6/C03", note="Partial: the clause-level formatter (clause order, joins, set operations, windows, DML) is not modelled in Coq; it is reached by the oracle only. Trusted as for C01/C04."),
+ "C05": dict(technique="Coq proof that the reducer and to_json_operator keep every operand (leaves_kept, on top of the engine-level theorem), model tied by differential execution; atom-substitution oracle on corpus and generated statements",
+             text="Theorem C05_operands_kept (Props/C05.v): for every operator tree obeying the library's edge rule, every atom written in the text (other than a bare NULL that is folded) occurs in the returned tree. "
+                  "Statement level: every identifier / number / string occurrence (independent lexer) of every accepted corpus and generated statement is replaced by a fresh atom; if still accepted the fresh atom must be in the tree; losses must match a listed finding by syntactic pattern",
+             design="6/C05", note="Partial: scrub and the clause-shaping parse actions are covered by the oracle and by the C08/C11 correspondence, not by a leaf-preservation theorem."),
+ "C10": dict(technique="Coq proofs: two parenthesisations of one operator tree parse alike (from parse_tokens), and scrub makes a named wrapper transparent (wrapper_transparent, all callback modes); one-expression-grammar fact extracted from the live parser; position x parenthesis oracle",
+             text="Theorems C10_parentheses_inert and C10_wrapper_transparent (Props/C10.v). Every generated expression is embedded in 17 syntactic positions, bare / with redundant parentheses at every node / wrapped, and the subtree at the position's path must be identical everywhere; the translator fails closed if the built parser contains more than one infix table (a clause with its own expression grammar)",
+             design="6/C10", note="Partial: the per-position wrappers (select_column / to_select_call, sort_column, one_param ...) are not individually modelled; their transparency is the oracle's job. The three documented literal foldings are excluded by the generator."),
 }
 PENDING_REASON = "check not built yet in this session (planned, see DESIGN.md section 8); not claimed until its theorem and tie exist"
 ALL = ["C%02d" % i for i in range(1, 21)]
